@@ -883,6 +883,13 @@ def run_case(acc: core.Acc, case: dict) -> None:
     stage = 'construct'
     try:
         G.assign_views(bsp, world)
+        if case.get('also_read'):
+            for other in G.VIEWS:
+                if other not in world:
+                    try:
+                        getattr(bsp, other)
+                    except Exception:  # noqa: BLE001 - some views cannot be parsed from the empty base file; not this clause's business
+                        acc.count('other_view_unreadable_on_empty_base')
         if 'props' in world:
             for rec in world['props']['props']:
                 rec.pop('scaling_is_float', None)      # builder hint, not content
@@ -972,6 +979,10 @@ def enum_cases(fam: Family, depth: int):
     for lay in reps:
         for tag, world in fam.variants(lay):
             yield {'fam': fam.name, 'layout': lay, 'world': world, 'tag': tag}
+        # cross-view interference: every OTHER view is looked at (unmodified, empty in the base file) before saving;
+        # its writer runs too and must not clobber what this family's writer produced (shared lumps such as FACEIDS)
+        for n in (1, 2):
+            yield {'fam': fam.name, 'layout': lay, 'n': n, 'tag': 'other_views_read', 'also_read': True}
         if hasattr(fam, 'overflow_worlds'):
             for tag, world, path in fam.overflow_worlds(lay):
                 yield {'fam': fam.name, 'layout': lay, 'world': world, 'tag': tag, 'overflow': True}
